@@ -400,7 +400,8 @@ InAck(h, d) ==
      THEN [h EXCEPT !.reqs[any].st = "dc", !.op.dc = TRUE, !.dcids = @ \cup {d.id}] ELSE h
   ELSE LET r == h.reqs[k] IN
     IF d.t = PUBREC THEN
-       IF r.ph = "rec" THEN h                                            \* duplicate PUBREC
+       IF r.ph = "rec"                      \* duplicate PUBREC; one that now fails is inconsistent: dc
+       THEN IF rc >= 128 THEN [h EXCEPT !.op.dc = TRUE] ELSE h
        ELSE IF rc < 128
        THEN [h EXCEPT !.reqs[k].ph = "rec", !.reqs[k].recseq = h.recn + 1, !.recn = @ + 1]
        ELSE [h EXCEPT !.reqs[k].ph = "done", !.op.rej = rc]
